@@ -29,6 +29,12 @@ const DRAFT: &[u8; 23] = b"draft-ietf-ntp-ntpv5-09";
 #[derive(Clone, Copy)]
 pub struct Layout {
     pub v5: bool,
+    /// NTPv5 flag byte 15 (bit 0 synchronized, bit 2 authnak), concrete per harness: a symbolic value
+    /// makes the header parse result symbolic and with it every offset behind it
+    pub b15: u8,
+    /// ideal-AEAD outcome for the authenticator of this datagram, concrete per harness (a symbolic
+    /// Ok/Err through `?` costs two orders of magnitude)
+    pub authentic: bool,
     pub y_len: usize,
     pub has_nts: bool,
     pub inner: usize,
@@ -95,7 +101,7 @@ fn c07_body(lay: Layout, msg: &mut [u8], split: Split) -> Obs {
     kani::assume(deadline_s >= 0 && deadline_s < (1 << 40) && deadline_n < 1_000_000_000);
     let uid_match: bool = kani::any();
     let origin_match: bool = kani::any();
-    let authentic: bool = kani::any();
+    let authentic: bool = lay.authentic;
     let send_raw: u64 = kani::any();
     let recv_raw: u64 = kani::any();
     // universally quantified byte position inside a 12-byte cookie
@@ -133,9 +139,10 @@ fn c07_body(lay: Layout, msg: &mut [u8], split: Split) -> Obs {
     // process_message and leap bits only travel into the measurement)
     msg[0] = if lay.v5 { 0x2C } else { 0x24 };
     if lay.v5 {
-        // timescale UTC, flag byte 14 zero (anything else is a parse error); flag byte 15 symbolic
+        // timescale UTC, flag byte 14 zero (anything else is a parse error); flag byte 15 per harness
         msg[12] = 0;
         msg[14] = 0;
+        msg[15] = lay.b15;
     }
     // field types: Y (in front of the authenticator) and X (after it) are a cookie in clear (v4) or
     // a reference-id response in clear (v5); every encrypted field is a cookie or an unknown field
@@ -314,8 +321,8 @@ pub struct Obs {
     unauth_bound: bool,
 }
 
-/// templates with an authenticator field
-macro_rules! c07_nts {
+/// templates with an authenticator field that the server really produced
+macro_rules! c07_genuine {
     ($name:ident, $lay:expr) => {
         nharness! {
             #[kani::unwind(8)]
@@ -328,9 +335,25 @@ macro_rules! c07_nts {
                 let o = c07_body(L, &mut msg[..L.total()], Split::Main);
                 kani::cover!(o.processed, "a genuine response is processed");
                 kani::cover!(o.got_cookie, "a genuine response delivers a cookie");
-                kani::cover!(o.forged_bound, "forgery with the right identifiers");
                 kani::cover!(o.replay, "genuine but not bound to the pending request (replay)");
                 kani::cover!(o.auth_kiss, "authenticated kiss-o'-death acts");
+            }
+        }
+    };
+}
+/// templates with an authenticator field that is a forgery
+macro_rules! c07_forged {
+    ($name:ident, $lay:expr) => {
+        nharness! {
+            #[kani::unwind(8)]
+            #[kani::stub(core::str::from_utf8, crate::common::from_utf8_ascii_model)]
+            #[kani::stub(core::slice::ascii::is_ascii, crate::common::is_ascii_model)]
+            fn $name() {
+                const L: Layout = $lay;
+                let mut msg: [u8; L.total() + 1] = kani::any();
+                let o = c07_body(L, &mut msg[..L.total()], Split::Main);
+                assert!(!o.processed && !o.auth_kiss, "nothing is accepted from a forged datagram");
+                kani::cover!(o.forged_bound, "forgery with the right identifiers");
             }
         }
     };
@@ -344,7 +367,6 @@ macro_rules! c07_plain {
             #[kani::stub(core::slice::ascii::is_ascii, crate::common::is_ascii_model)]
             fn $name() {
                 const L: Layout = $lay;
-                // backing array one byte longer than the datagram (one-past-the-end folding)
                 let mut msg: [u8; L.total() + 1] = kani::any();
                 let o = c07_body(L, &mut msg[..L.total()], Split::Main);
                 assert!(!o.processed && !o.auth_kiss, "nothing is accepted without an authenticator");
@@ -370,13 +392,19 @@ macro_rules! c07_kf {
     };
 }
 
-// NTPv4
-c07_plain!(c07_v4_plain, Layout { v5: false, y_len: 0, has_nts: false, inner: 0, x_len: 28 });
-c07_nts!(c07_v4_nts, Layout { v5: false, y_len: 16, has_nts: true, inner: 1, x_len: 28 });
-c07_nts!(c07_v4_nts2, Layout { v5: false, y_len: 0, has_nts: true, inner: 2, x_len: 0 });
-// NTPv5
-c07_plain!(c07_v5_plain, Layout { v5: true, y_len: 0, has_nts: false, inner: 0, x_len: 16 });
-c07_nts!(c07_v5_nts, Layout { v5: true, y_len: 20, has_nts: true, inner: 1, x_len: 20 });
-c07_nts!(c07_v5_nts2, Layout { v5: true, y_len: 0, has_nts: true, inner: 2, x_len: 0 });
-c07_kf!(c07_v5_plain_kf_authnak_kiss, Layout { v5: true, y_len: 0, has_nts: false, inner: 0, x_len: 0 });
+const fn lay(v5: bool, b15: u8, authentic: bool, y_len: usize, has_nts: bool, inner: usize, x_len: usize) -> Layout {
+    Layout { v5, b15, authentic, y_len, has_nts, inner, x_len }
+}
 
+// NTPv4
+c07_plain!(c07_v4_plain, lay(false, 0, false, 0, false, 0, 28));
+c07_genuine!(c07_v4_genuine, lay(false, 0, true, 16, true, 1, 28));
+c07_forged!(c07_v4_forged, lay(false, 0, false, 16, true, 1, 28));
+c07_genuine!(c07_v4_genuine2, lay(false, 0, true, 0, true, 2, 0));
+// NTPv5 (flag byte: 0x04 = authnak, 0x01 = synchronized)
+c07_plain!(c07_v5_plain_authnak, lay(true, 0x04, false, 0, false, 0, 16));
+c07_plain!(c07_v5_plain_sync, lay(true, 0x01, false, 0, false, 0, 16));
+c07_genuine!(c07_v5_genuine, lay(true, 0x01, true, 20, true, 1, 20));
+c07_forged!(c07_v5_forged, lay(true, 0x04, false, 20, true, 1, 20));
+c07_genuine!(c07_v5_genuine2, lay(true, 0x01, true, 0, true, 2, 0));
+c07_kf!(c07_v5_plain_kf_authnak_kiss, lay(true, 0x04, false, 0, false, 0, 0));
